@@ -65,6 +65,7 @@ func vfNewCache() *hugecache.Cache {
 	conf.Shards = 16
 	conf.MaxEntriesInWindow = 1000
 	conf.MaxEntrySize = 500
+	conf.CleanWindow = 0 // no janitor goroutine: it would keep every per-case cache alive for the life of the process
 	c, err := hugecache.NewWithConfig(context.Background(), conf)
 	if err != nil {
 		panic(err)
